@@ -169,6 +169,27 @@ def cases(ctx):
     for n, (sh, d) in enumerate(CONC_SHAPES):
         for mod in (MODS if not ctx.quick else [MODS[n % 5], MODS[(n + 2) % 5]]):
             out.append(concrete_mod_case(sh, d, mod, L))
+    body = """
+base = DataPath(MapValue(value=Value.is_instance(list, dict, str)))
+docs = ({'a': [u1, 2], 'b': {'k': 1}, 'c': 5}, {'a': 'xy', 'b': [1, 2, 3]}, {'z': 0}, {'a': [u1, 2], 'b': {'k': 1}, 'c': 5})
+PT = (('map', V('is_instance', list, dict, str)),)
+ok = True
+chains = [('length', 'last'), ('last', None), ('first', 'length'), ('length', 'first'), ('dtype', 'all'), ('last', 'length'), ('length', None), ('first', None)]
+for doc in docs:
+    sel = ref_walk(PT, doc)
+    for m1, m2 in chains:
+        p = getattr(base, m1)()
+        if m2:
+            p = getattr(p, m2)()
+        mod = m1 if m1 in ('length', 'dtype') else (m2 if m2 in ('length', 'dtype') else None)
+        multi = m1 if m1 in ('first', 'last', 'all') else (m2 if m2 in ('first', 'last', 'all') else None)
+        vals = [ref_datum_mod(mod, v) for v, _ in sel]
+        exp = [] if not vals else (vals[0] if multi == 'first' else (vals[-1] if multi == 'last' else vals))
+        ok = ok and same('chain on a reused base path', tx(p.get_data(doc)), tx(exp))
+    ok = ok and same('the base path itself is unmodified', tx(base.get_data(doc)), tx([v for v, _ in sel]))
+return ok
+"""
+    out.append(mk_case("c04.reuse.base_path_chains", [("u1", "Union[int, bool, None]")], body, pre=[f"BU({L}, u1)"], stubs=["sym_repr"]))
     # the empty path with datum modifiers
     body = """
 doc = {'a': u1, 'b': [u2]}
